@@ -118,7 +118,7 @@ var kindsFor = map[string][]string{
 	"C01": {"decision", "fault"}, "C02": {"decision"}, "C03": {"decision"}, "C04": {"decision", "fault"},
 	"C05": {"kernel-verifier", "return-set", "fault"}, "C06": {"decision", "fault", "valid-rejected"},
 	"C07": {"panic", "invalid-accepted", "error-with-program", "valid-rejected"},
-	"C14": {"roundtrip", "marshal", "config-parse", "config-unpack", "roundtrip-assemble", "action-roundtrip", "operation-roundtrip", "unknown-action", "action-accepts-garbage"},
+	"C14": {"roundtrip", "marshal", "config-parse", "config-unpack", "roundtrip-assemble", "action-roundtrip", "operation-roundtrip", "unknown-action", "action-accepts-garbage", "operation-case", "action-case"},
 	"C13": {"nondeterministic-text"},
 	"C12": {"inverse", "alias", "unsupported"},
 }
